@@ -14,6 +14,9 @@ import (
 	"runtime"
 	"strings"
 	"sync"
+	"sync/atomic"
+	"time"
+	"verif/kit"
 )
 
 // Op describes the operation a thread is about to perform.
@@ -74,6 +77,69 @@ type Exec struct {
 	aborted               bool
 	objIDs                map[uintptr]int
 	keep                  []any
+
+	// NoYield: a thread ran for NoYieldAfter without reaching a scheduling
+	// point (an endless loop in the code under test); reported as Livelock
+	NoYield string
+	waiting atomic.Bool
+	waitSeq atomic.Uint64
+	noYield atomic.Bool
+}
+
+// LivelockWhy describes why Livelock was set.
+func (e *Exec) LivelockWhy() string {
+	if e.NoYield != "" {
+		return e.NoYield
+	}
+	return "execution exceeded the step horizon"
+}
+
+var poisoned atomic.Bool
+var lastNoYield string
+
+func init() { kit.WorkerPoisoned = Poisoned }
+
+// Poisoned reports whether some execution of this process ended with a thread
+// that never reached a scheduling point again (it is still running).
+func Poisoned() bool { return poisoned.Load() }
+
+// NoYieldMarker is part of every NoYield description (the kit does not replay
+// such cases: each replay would leave another thread spinning).
+const NoYieldMarker = "without reaching a scheduling point"
+
+// NoYieldAfter is how long one thread may run between two scheduling points
+// before the execution is declared livelocked. Steps normally take microseconds.
+var NoYieldAfter = 20 * time.Second
+
+var (
+	watchedExec atomic.Pointer[Exec]
+	watchOnce   sync.Once
+)
+
+func watchNoYield() {
+	var lastE *Exec
+	var lastSeq uint64
+	var since time.Time
+	for {
+		time.Sleep(500 * time.Millisecond)
+		e := watchedExec.Load()
+		if e == nil || !e.waiting.Load() {
+			lastE = nil
+			continue
+		}
+		q := e.waitSeq.Load()
+		if e != lastE || q != lastSeq {
+			lastE, lastSeq, since = e, q, time.Now()
+			continue
+		}
+		if time.Since(since) >= NoYieldAfter && !e.noYield.Load() {
+			e.noYield.Store(true)
+			select {
+			case e.parked <- struct{}{}:
+			case <-time.After(5 * time.Second):
+			}
+		}
+	}
 }
 
 var (
@@ -311,12 +377,21 @@ type Options struct {
 func Run(body func(), opt Options) *Exec {
 	mu.Lock()
 	defer mu.Unlock()
+	if poisoned.Load() {
+		// A thread of an earlier execution is still spinning in this process:
+		// nothing can be executed reliably any more. The verdict of that
+		// execution is repeated; sharded workers are replaced after the job.
+		return &Exec{Livelock: true, NoYield: lastNoYield + " (that thread is still running; this execution was not started)", aborted: true, prunedAt: -1, Choices: append([]int(nil), opt.Prefix...)}
+	}
 	e := &Exec{parked: make(chan struct{}), prefix: opt.Prefix, horizon: opt.Horizon, memo: opt.Memo, prunedAt: -1, stateKey: opt.StateKey, tracing: opt.Trace}
 	if e.horizon == 0 {
 		e.horizon = 100000
 	}
 	active = e
 	defer func() { active = nil }()
+	watchOnce.Do(func() { go watchNoYield() })
+	watchedExec.Store(e)
+	defer watchedExec.Store(nil)
 	main := e.spawn("main", body)
 	_ = main
 	var order []*thread
@@ -383,8 +458,19 @@ func Run(body func(), opt Options) *Exec {
 		}
 		e.cur = t
 		t.enabled = nil
+		e.waitSeq.Add(1)
+		e.waiting.Store(true)
 		t.resume <- struct{}{}
 		<-e.parked
+		e.waiting.Store(false)
+		if e.noYield.Load() {
+			e.NoYield = fmt.Sprintf("thread %s, resumed at %s, ran for %v without reaching a scheduling point", t.name, t.op, NoYieldAfter)
+			e.Livelock = true
+			lastNoYield = e.NoYield
+			poisoned.Store(true)
+			e.abort()
+			return e
+		}
 		if e.PanicVal != nil {
 			e.abort()
 			return e
